@@ -85,6 +85,25 @@ CLAIMS = {
             "DESIGN.md section 9 C04",
             "bounded: complete only for the listed files; ideal-MAC reasoning is not machine-checked",
             "bounded fault enumeration with a run-time contract monitor (stand-in); structural part proved under C05"),
+    "C02": ("proof",
+            "contracts on the real auth-block classes and Bec2File header code with symbolic session key / security code / "
+            "customer key / version / selector: unpack(pack(sk)) == (same block, sk) for the three block kinds under the "
+            "encryptor contracts (C08 frame inverse, ECC plug-in contract with DH symmetry), and for every non-empty ordered "
+            "subset of block kinds the written header/body split and the read-back of key, blocks and body hand-over; the "
+            "bounded monitor runs the real crypto on every ordered subset x decryptor subsets x keys with zero tails",
+            "DESIGN.md section 9 C02",
+            TB + "; ECC plug-in by contract (fresh key pair, DH(a,pub b)=DH(b,pub a)); body by the C01/C03/C06 contracts",
+            "deductive: AST->VC over ropes with callee contracts (closed world of block/encryptor classes), z3; bounded monitor"),
+    "C07": ("proof",
+            "ghost call log on the RNG (one draw per file, none when a key is supplied), loop contract on pack_auth_blocks for "
+            "ANY number of blocks (each pack() receives self.session_key), key/offset handed to the body writer, "
+            "unpack_auth_blocks on all header shapes of up to 3 blocks (agreeing keys returned, disagreeing keys rejected, "
+            "undecryptable blocks kept as UnknownAuthBlock that re-packs to the same bytes), one fresh ECC key pair per "
+            "EccEncryptor.encrypt used for both the public part and the DH secret",
+            "DESIGN.md section 9 C07",
+            TB + "; statistical freshness of os.urandom/SigningKey.generate assumed; unpack proved per header shape (<= 3 "
+                 "blocks, stated bound)",
+            "deductive: AST->VC, ghost call logs, loop contract over an abstract block dictionary, z3; bounded monitor"),
 }
 
 NA_DEFAULT = "check not built yet (construction in progress, see DESIGN.md section 14)"
